@@ -79,7 +79,7 @@ def c09_g1(ctx):
         raise Anchor("C09-G1", "calls of segments::merge in Segments::merge")
 
 
-@rule("C09", "C09-G2", 1, "the completeness test depends on where the first held range starts (and can be true for an empty list only when the size is 0)")
+@rule("C09", "C09-G2", 1, "the completeness test depends on where the first held range starts (and can be true for an empty list only when the size is 0)", also=("C01", "C08", "C18"))
 def c09_g2(ctx):
     f = ctx.one("C09-G2", "segments::Segments::is_complete")
     fns = [f] + ctx.prog.closures_of(f)
@@ -633,3 +633,71 @@ def c09_g4(ctx):
                 yield bad("C09-G4", key, at(f, t["span"]["line"]), "the sorted range list is edited by %s, which does not preserve its order: the binary searches and the coalescing loop rely on it" % last)
     if n == 0:
         raise Anchor("C09-G4", "mutators of the range list")
+
+
+def _flatten_alts(e, comp=None):
+    """Alternatives of a value built through phi / tuple / projection plumbing."""
+    from common import simp
+
+    e = simp(e)
+    if e[0] == "phi":
+        out = []
+        for x in e[2]:
+            out.extend(_flatten_alts(x, comp))
+        return out
+    if e[0] == "proj" and re.match(r"^\.\d+$", e[2] or "") and simp(e[1])[0] in ("phi", "agg"):
+        return _flatten_alts(e[1], int(e[2][1:]))
+    if e[0] == "agg" and e[1] == "tuple" and comp is not None and comp < len(e[5]):
+        return _flatten_alts(e[5][comp], None)
+    return [e]
+
+
+@rule("C09", "C09-G5", 2, "a reported gap never starts before the window: the running start of the next gap is the window start, a maximum with it, the end of the range found to begin exactly there, or the end of the range just passed", also=("C08",))
+def c09_g5(ctx):
+    from common import simp, sstr
+
+    f = ctx.one("C09-G5", "segments::Segments::gaps")
+    params = {vn: l for vn, l, pj in f.var_places if not pj and 2 <= l <= f.arg_count}
+    names = sorted(params, key=lambda k: params[k])
+    if len(names) != 2:
+        raise Anchor("C09-G5", "Segments::gaps(start, end) parameters")
+    p_start = names[0]
+    ebu = ExprBuilder(ctx.prog, f, user_stop=True)
+    ebf = ExprBuilder(ctx.prog, f)
+    firsts = set()
+    for b, t in f.all_calls():
+        d, r, _ = ctx.prog.callee_of(t)
+        if (r or d or "").endswith("Vec::push"):
+            e = simp(ebu.call(b, t))
+            tup = e[3][1] if len(e[3]) > 1 else None
+            if tup is not None and tup[0] == "agg" and len(tup[5]) == 2:
+                firsts.add(expr_str(tup[5][0]))
+    if not firsts:
+        raise Anchor("C09-G5", "gap pushes in Segments::gaps")
+    n = 0
+    for var in sorted(firsts):
+        if not re.match(r"^\w+$", var):
+            yield undecided("C09-G5", "Segments::gaps:start-of-gap", at(f), "gap start is the expression %s, not a running variable" % var)
+            continue
+        for i, d in enumerate(ebf.var_defs(var)):
+            for a in _flatten_alts(d):
+                n += 1
+                txt = expr_str(a)
+                key = "Segments::gaps:%s<-%s" % (var, re.sub(r"_\d+", "_", txt)[:70])
+                good = None
+                if txt == p_start:
+                    good = "the window start"
+                elif a[0] == "call" and (callee_name(a) or "").split("::")[-1] == "max" and any(expr_str(simp(x)) == p_start for x in a[3]):
+                    good = "max(.., window start)"
+                elif re.match(r"^\(Iterator>::next\(\w+\)\)@Some\.0(\.\*)?\.1$", txt):
+                    good = "end of the range just passed"
+                elif a[0] == "proj" and a[2] == ".1" and simp(a[1])[0] == "call" and (callee_name(simp(a[1])) or "").endswith("index"):
+                    idx = expr_str(simp(a[1])[3][1]) if len(simp(a[1])[3]) > 1 else ""
+                    if re.match(r"^\(slice::binary_search_by\(self\.0, closure gaps::\{closure#\d+\}\{%s\}\)\)@Ok\.0$" % re.escape(p_start), idx):
+                        good = "end of the range that begins exactly at the window start (binary search Ok)"
+                if good:
+                    yield ok("C09-G5", key, at(f), good)
+                else:
+                    yield bad("C09-G5", key, at(f), "the start of the next gap can be %s, which is not bounded below by the window start: a gap can begin before the requested window" % txt[:200])
+    if n == 0:
+        raise Anchor("C09-G5", "definitions of the gap-start variable")
